@@ -3,7 +3,7 @@
 # Confirms an agent-made change myself in a scratch copy (tests still pass, demo fails with / passes without),
 # runs my quick check(s) against it, and files it under /verif/seeded/<PID>-<A|B>/.
 PID=$1; V=$2; shift 2; CHECKS="${*:-$PID}"
-SRC=/tmp/wt-$PID/_out/$V
+SRC=/root/scratch/agent_out/$PID/$V; [ -d "$SRC" ] || SRC=/tmp/wt-$PID/_out/$V
 [ -f "$SRC/patch.diff" ] || { echo "no $SRC/patch.diff"; exit 1; }
 D=$(mktemp -d /root/scratch/ing.XXXXXX); mkdir -p "$D/src" "$D/out"
 (cd /repo && tar --exclude=.git -cf - .) | tar -xf - -C "$D/src"
